@@ -379,12 +379,15 @@ class Node(object):
         Decides if priority preemption is needed, finds the individual to preempt, and preempt them.
         """
         if self.priority_preempt != False and self.c > 0:
-            least_priority = max(s.cust.priority_class for s in self.servers)
+            in_service = [s.cust for s in self.servers if not s.cust.is_blocked]
+            if len(in_service) == 0:
+                return
+            least_priority = max(ind.priority_class for ind in in_service)
             if individual.priority_class < least_priority:
                 least_prioritised_individuals = [
-                    s.cust
-                    for s in self.servers
-                    if s.cust.priority_class == least_priority
+                    ind
+                    for ind in in_service
+                    if ind.priority_class == least_priority
                 ]
                 individual_to_preempt = max(
                     [ind for ind in least_prioritised_individuals],
